@@ -52,6 +52,15 @@ type Explorer struct {
 	Outcome  func(r *vsched.Result) string
 	Stop     func() bool
 	shardCtr int64
+	// Unbounded: no preemption bound; a (state key, thread) pair is expanded only once.  Requires
+	// vsched.StateFn to be set by the harness to a hash of the complete shared state.
+	Unbounded bool
+	visited   map[visitKey]bool
+}
+
+type visitKey struct {
+	key    uint64
+	thread int
 }
 
 // RunOnce replays one choice list.
@@ -95,7 +104,12 @@ func classify(r *vsched.Result, check func(r *vsched.Result) []Finding) []Findin
 func (e *Explorer) Explore() {
 	e.Stats.Outcomes = map[string]int64{}
 	e.Stats.Bound = e.Bound
+	if e.Unbounded {
+		e.visited = map[visitKey]bool{}
+		e.Stats.Bound = -1
+	}
 	e.explore(nil, 0)
+	e.Stats.StatesSeen = int64(len(e.visited))
 }
 
 func preemptionsBefore(points []vsched.PointRec, choices []int, i int) int {
@@ -152,6 +166,28 @@ func (e *Explorer) explore(prefix []int, depth int) {
 		}
 	}
 	if r.Diverged != "" {
+		return
+	}
+	if e.Unbounded {
+		// mark the choices this execution itself took, then expand every unvisited alternative
+		for i := len(prefix); i < len(r.Points); i++ {
+			p := r.Points[i]
+			e.visited[visitKey{p.Key, p.Enabled[p.Chosen]}] = true
+		}
+		for i := len(prefix); i < len(r.Points); i++ {
+			p := r.Points[i]
+			for alt := 1; alt < len(p.Enabled); alt++ {
+				vk := visitKey{p.Key, p.Enabled[alt]}
+				if e.visited[vk] {
+					continue
+				}
+				e.visited[vk] = true
+				np := make([]int, i+1)
+				copy(np, r.Choices[:i])
+				np[i] = alt
+				e.explore(np, depth+1)
+			}
+		}
 		return
 	}
 	for i := len(prefix); i < len(r.Points); i++ {
